@@ -1,8 +1,9 @@
 (* C04 -- position key.  Proved: the minimum distance of the key code on the tables regenerated from zobrist.rs.
-   PARTIAL: "incremental = recomputed" and "key = XOR of the features present" are checked by the correspondence
+   Proved as well: the null move keeps incremental = recomputed.
+   PARTIAL: "incremental = recomputed" for real moves and "key = XOR of the features present" are checked by the correspondence
    run (every legal move of sampled positions, whole play-outs), their proofs are not closed yet. *)
 From Coq Require Import NArith ZArith List Bool.
-From Rawr Require Import Consts Bits KeyFacts.
+From Rawr Require Import Consts Bits Magic Position MoveGen MakeMove KeyFacts HashFacts.
 Import ListNotations.
 Local Open Scope N_scope.
 
@@ -16,5 +17,10 @@ Proof. exact key_min_distance. Qed.
 Theorem C04_key_table_size : length ALLKEYS = 781%nat.
 Proof. exact allkeys_length. Qed.
 
+(* null moves keep the invariant "maintained key = key recomputed from scratch" (all boards below 2^64) *)
+Theorem C04_makenull_hash : forall p, BB8 p -> hash p = calculate_hash p -> hash (makenull p) = calculate_hash (makenull p).
+Proof. exact makenull_hash. Qed.
+
 Print Assumptions C04_key_min_distance.
+Print Assumptions C04_makenull_hash.
 Print Assumptions C04_key_table_size.
